@@ -100,6 +100,9 @@ def _run(ctx, pid, thorough, rng, exe, tmp):
                 if tops:
                     p, u = rng.choice(tops)
                     s.up([], 0x8c, [rng.randrange(1, 255), p[0]] + list(u)); s.lists()
+                    where = getattr(s, "_where", None)                      # the generator's picture of the bus (gen_track.rand_uplink)
+                    if where is None: where = {tuple(uu): list(pp) for pp, uu in s.tree}; s._where = where
+                    for k in [k for k, pp in where.items() if pp[:1] == p]: del where[k]
                     for _ in range(4):
                         fn, sa, iv = g.rand_command(rng, s); s.hl(fn, sa, iv)
             if i % 4 == 1: lose_top()                  # chain trees: first thing, while everything is still connected
